@@ -516,12 +516,12 @@ theorem initState_inv (P : Problem α) (d0 : D) (pr : Params α) (stop : Nat →
         this.2.2, by simp, by simp, by simp⟩
     · have hes := evalStep_fields P pr
         { x := x0, xhat := (initialLipschitz P pr x0).2.2.2.1, gradPsi := (initialLipschitz P pr x0).2.2.1,
-          gradPsiHat := (blankIterate gV gS iS).gradPsiHat, p := (blankIterate gV gS iS).p,
-          yhat := (blankIterate gV gS iS).yhat, psix := (initialLipschitz P pr x0).2.1,
-          psixhat := (blankIterate gV gS iS).psixhat,
+          gradPsiHat := (blankIterate gV gS).gradPsiHat, p := (blankIterate gV gS).p,
+          yhat := (blankIterate gV gS).yhat, psix := (initialLipschitz P pr x0).2.1,
+          psixhat := (blankIterate gV gS).psixhat,
           gamma := pr.LgammaFactor / (initialLipschitz P pr x0).1, L := (initialLipschitz P pr x0).1,
-          pTp := (blankIterate gV gS iS).pTp, gradPsiTp := (blankIterate gV gS iS).gradPsiTp,
-          hxhat := (blankIterate gV gS iS).hxhat, haveGradHat := (blankIterate gV gS iS).haveGradHat }
+          pTp := (blankIterate gV gS).pTp, gradPsiTp := (blankIterate gV gS).gradPsiTp,
+          hxhat := (blankIterate gV gS).hxhat, haveGradHat := (blankIterate gV gS).haveGradHat }
       unfold GammaOK
       rw [hes.1, hes.2.1]
       exact ⟨div_pos hp.lgf hL, hL, div_mul_cancel₀ _ (ne_of_gt hL)⟩
